@@ -241,3 +241,56 @@ Definition rows_vs_model (t : ptable) : list bool := map (fun r => pout_eqb (mod
 Definition rows_vs_spec (t : ptable) : list bool := map (fun r => spec_ok (fst r) (snd r)) t.
 Definition uncovered (cs : list pcase) (t : ptable) : list bool :=
   map (fun c => match plookup c t with Some _ => true | None => false end) cs.
+
+(* ---- histories on ONE long-lived provider ------------------------------------------------------
+   The property speaks of every rate object the provider returns, for any repository content.  A
+   provider lives through many accessor calls while the repository underneath it may grow.  The
+   repository is abstracted to three sets of slots (a slot = one (file, key) of the repository):
+   stored rate tables, stored decoy tables (under the isotope paths), stored wavelengths.  The
+   accessors of the model keep no state of their own: what a call returns is model_outcome of the
+   case made of the constructor flags, the call's own arguments and the repository content AT THE
+   TIME OF THE CALL. *)
+Inductive hop :=
+  | HSetRate (rs : Z)                  (* repository.add_*_rate: the element's table of slot rs (again: new values) *)
+  | HSetDecoy (rs : Z)                 (* different tables under the isotope paths of slot rs *)
+  | HSetWl (w : Z)                     (* repository.add_wavelength into wavelength slot w (again: new value) *)
+  | HCall (a : accessor) (x1 x2 : kind) (rs wi we : Z).
+      (* accessor call with species kinds x1 x2, reading rate slot rs; wi / we: the wavelength slots
+         of the requested isotope and of its element *)
+
+Record hstate := mkst { st_rates : list Z; st_decoys : list Z; st_wls : list Z }.
+Definition st0 : hstate := mkst [] [] [].
+Definition zmem (z : Z) (l : list Z) : bool := existsb (Z.eqb z) l.
+
+Definition hstep (st : hstate) (o : hop) : hstate :=
+  match o with
+  | HSetRate rs => mkst (rs :: st_rates st) (st_decoys st) (st_wls st)
+  | HSetDecoy rs => mkst (st_rates st) (rs :: st_decoys st) (st_wls st)
+  | HSetWl w => mkst (st_rates st) (st_decoys st) (w :: st_wls st)
+  | HCall _ _ _ _ _ _ => st
+  end.
+
+Definition hcase (p n f : bool) (st : hstate) (a : accessor) (x1 x2 : kind) (rs wi we : Z) : pcase :=
+  mkcase a p n f x1 x2 (if zmem rs (st_rates st) then Present else NoFile) (zmem rs (st_decoys st))
+         (zmem wi (st_wls st)) (zmem we (st_wls st)).
+
+(* the outcomes of the calls of a history, in order *)
+Fixpoint hrun (p n f : bool) (st : hstate) (ops : list hop) : list pout :=
+  match ops with
+  | [] => []
+  | HCall a x1 x2 rs wi we :: r => model_outcome (hcase p n f st a x1 x2 rs wi we) :: hrun p n f st r
+  | o :: r => hrun p n f (hstep st o) r
+  end.
+
+Definition hfinal (st : hstate) (ops : list hop) : hstate := fold_left hstep ops st.
+Definition is_set (o : hop) : bool := match o with HCall _ _ _ _ _ _ => false | _ => true end.
+
+Fixpoint pouts_eqb (a b : list pout) : list bool :=
+  match a, b with
+  | x :: r, y :: s => pout_eqb x y :: pouts_eqb r s
+  | [], [] => []
+  | _, _ => [false]
+  end.
+(* what a Gen file prints for one history: positions of the calls whose observed outcome differs *)
+Definition hcheck (p n f : bool) (ops : list hop) (observed : list pout) : list Z :=
+  failing (pouts_eqb (hrun p n f st0 ops) observed).
